@@ -437,13 +437,17 @@ func (db *Database) objectNames(typ string) ([]string, error) {
 }
 
 // withoutRowid is true if name is a 'WITHOUT ROWID' table
-func (db *Database) withoutRowid(name string) bool {
+func (db *Database) withoutRowid(name string) (bool, error) {
 	t, err := db.Table(name)
 	if err != nil {
-		return false
+		return false, err
 	}
-	_, err = t.db.openIndex(t.root)
-	return err == nil
+	p, err := t.db.openPage(t.root)
+	if err != nil {
+		return false, err
+	}
+	_, isIndex := p.(indexBtree)
+	return isIndex, nil
 }
 
 // Table opens the named table.
@@ -524,7 +528,12 @@ func (db *Database) Info() (string, error) {
 		fmt.Fprintf(b, "- %s (%s)\n  owner: %s\n  sql: %s\n", o.name, o.typ, o.tblName, o.sql)
 		switch o.typ {
 		case "table":
-			switch db.withoutRowid(o.name) {
+			wr, err := db.withoutRowid(o.name)
+			if err != nil {
+				fmt.Fprintf(b, "  error: %s\n", err)
+				continue
+			}
+			switch wr {
 			case false:
 				fmt.Fprintf(b, "  first rows:\n")
 				t, err := db.Table(o.name)
@@ -567,12 +576,13 @@ func (db *Database) Info() (string, error) {
 				fmt.Fprintf(b, "    error: %s\n", err)
 			} else {
 				i := 0
-				ind.Scan(func(rec Record) bool {
+				if err := ind.Scan(func(rec Record) bool {
 					fmt.Fprintf(b, "    %v\n", rec)
 					i++
 					return i > 5
-				})
-				if i == 0 {
+				}); err != nil {
+					fmt.Fprintf(b, "    error: %s\n", err)
+				} else if i == 0 {
 					fmt.Fprintf(b, "    (no rows)\n")
 				}
 			}
